@@ -47,8 +47,10 @@ func (b *backend) Get(ctx context.Context, r *proto.GetRequest) (resp *proto.Get
 
 	val, modRev, err := b.get(ctx, r.Key, requireRev)
 	if err == storage.ErrKeyNotFound {
+		// the newest version may be a deletion above the committed revision (an earlier write is
+		// still in flight): the answer "absent" is then only true at that deletion's revision
 		return &proto.GetResponse{
-			Header: responseHeader(curRev),
+			Header: responseHeader(maxUint64(curRev, modRev)),
 		}, nil
 	} else if err != nil {
 		klog.ErrorS(err, "backend get err", "key", string(r.GetKey()), "revision", r.GetRevision())
